@@ -376,7 +376,10 @@ CHECKS["C18"] = {
              "metadata: maps of valid-UTF-8 strings (empty, long, special) are encoded by each version and decoded by the other to the same map. "
              "end_to_end: a current client against a v0.0.17 server and a v0.0.17 client against a current server over the simulated transport (drawn chunking): 1..4 unary/stream echo RPCs with payloads up to 70 KB; the current client cancels mid-stream in both modes "
              "(the soft cancel's control packet must leave the v0.0.17 side undisturbed); unknown-kind control packets are injected between RPCs. "
-             "Non-trivial: >= 2 packets with a multi-frame or control packet (wire); a non-empty map (metadata); >= 2 RPCs, a soft cancel or an injected control packet (end to end)."),
+             "control_anywhere (metamorphic, against the current server): a wire-level client plays a script of 1..3 unary/stream echo calls (optional metadata packet, 0..3 messages up to 3000 bytes, half-close) twice, plainly and with unknown-kind control packets "
+             "(kinds 8/9/13/31/33/62/63, one or two frames) inserted at drawn places - ahead of the call, between metadata and invoke, between messages, after the half-close - with the transport drained after every packet or after the whole call; "
+             "the packets the server writes must be identical both times and the server must still be serving. "
+             "Non-trivial: >= 2 packets with a multi-frame or control packet (wire); a non-empty map (metadata); >= 2 RPCs, a soft cancel or an injected control packet (end to end); at least one control packet inserted (control_anywhere)."),
     "assumptions": ["verif/old/drpc is a verbatim copy of storj.io/drpc@v0.0.17 from the module cache with only the import path renamed (it needs github.com/gogo/protobuf and monkit, both in the module cache)",
                     "metadata with invalid UTF-8 is outside what released peers can exchange (v0.0.17 uses protobuf string fields) and is counted as trivial",
                     "after a soft cancel a v0.0.17 server keeps running its handler (it skips the cancel packet by design); only 'undisturbed' is asserted there"],
@@ -384,8 +387,10 @@ CHECKS["C18"] = {
         {"test": "TestC18Wire", "prop": "C18/wire", "quick": 16000, "thorough": 800000, "shards_quick": 16, "shards_thorough": 16},
         {"test": "TestC18Metadata", "prop": "C18/metadata", "quick": 40000, "thorough": 2000000, "shards_quick": 8, "shards_thorough": 16},
         {"test": "TestC18EndToEnd", "prop": "C18/end_to_end", "quick": 4000, "thorough": 200000, "shards_quick": 16, "shards_thorough": 16, "gomaxprocs": 1},
+        {"test": "TestC18ControlAnywhere", "prop": "C18/control_anywhere", "quick": 4000, "thorough": 200000, "shards_quick": 16, "shards_thorough": 16, "gomaxprocs": 1},
     ],
-    "floors": {"C18/wire": {"control_packets": 0.3, "multi_frame": 0.3}, "C18/end_to_end": {"new_client_old_server": 0.248, "old_client_new_server": 0.3, "soft_cancel_ignored_by_old_peer": 0.019, "unknown_control_packet_injected": 0.2}},
+    "floors": {"C18/wire": {"control_packets": 0.3, "multi_frame": 0.3}, "C18/end_to_end": {"new_client_old_server": 0.248, "old_client_new_server": 0.3, "soft_cancel_ignored_by_old_peer": 0.019, "unknown_control_packet_injected": 0.2},
+               "C18/control_anywhere": {"control_packets_inserted": 0.4, "between_metadata_and_invoke": 0.15}},
 }
 
 CHECKS["C17"] = {
